@@ -91,6 +91,7 @@ def run(tier):
     # ------------------------------------------------------------ C03.c
     _directed_semantics(chk)
     _direction_sites(chk)
+    _directed_memo(chk)
 
     # ------------------------------------------------------------ C03.d
     _wiring(chk)
@@ -180,6 +181,12 @@ def _slice_covers(sl, dim):
     hi = dim if sl.stop is None else sl.stop
     stp = 1 if sl.step is None else sl.step
     return lo <= 0 and hi >= dim and stp == 1
+
+
+def _directed_memo(chk):
+    """The cached compiled wrapper of a directed system is keyed by the base rhs, the direction and the flip indices."""
+    from .. import memo
+    memo.check_modules(chk, "C03.c-memo", [BASE], floor=2, what="hand-rolled caches of compiled right-hand sides")
 
 
 def _directed_semantics(chk):
